@@ -115,6 +115,8 @@ pub enum Ty {
     Slice(Box<Ty>),
     /// `core::slice::Windows<'_, T>` of `s.windows(3)`: the part of the slice not yet passed (a list)
     Windows(Box<Ty>),
+    /// `s.chars()` / an element iterator over a list: the part not yet passed (a list)
+    Iter(Box<Ty>),
     /// `Result<T, E>`, modelled as the sum `T + E`
     Result(Box<Ty>, Box<Ty>),
     /// a type of the `extern` table: an opaque Coq type with whitelisted accessor methods
@@ -142,6 +144,7 @@ impl Ty {
             Ty::Extern(n) => n.clone(),
             Ty::Slice(t) => format!("[{}]", t.show()),
             Ty::Windows(t) => format!("Windows<{}>", t.show()),
+            Ty::Iter(t) => format!("Iter<{}>", t.show()),
             Ty::Result(t, e) => format!("Result<{}, {}>", t.show(), e.show()),
             Ty::Fn(a, r) => format!("fn({}) -> {}", a.iter().map(|t| t.show()).collect::<Vec<_>>().join(", "), r.show()),
         }
@@ -164,6 +167,7 @@ pub fn join(a: &Ty, b: &Ty) -> R<Ty> {
         (Ty::Option(x), Ty::Option(y)) => Ty::Option(Box::new(join(x, y)?)),
         (Ty::Slice(x), Ty::Slice(y)) => Ty::Slice(Box::new(join(x, y)?)),
         (Ty::Windows(x), Ty::Windows(y)) => Ty::Windows(Box::new(join(x, y)?)),
+        (Ty::Iter(x), Ty::Iter(y)) => Ty::Iter(Box::new(join(x, y)?)),
         (Ty::Result(x, e), Ty::Result(y, f)) => Ty::Result(Box::new(join(x, y)?), Box::new(join(e, f)?)),
         (Ty::Range(x), Ty::Range(y)) => Ty::Range(Box::new(join(x, y)?)),
         (Ty::RangeIncl(x), Ty::RangeIncl(y)) => Ty::RangeIncl(Box::new(join(x, y)?)),
@@ -361,7 +365,7 @@ impl Tables {
             Ty::Bool => "false".into(),
             Ty::Unit => "tt".into(),
             Ty::Option(_) => "None".into(),
-            Ty::Slice(_) | Ty::Windows(_) => "[]".into(),
+            Ty::Slice(_) | Ty::Windows(_) | Ty::Iter(_) => "[]".into(),
             Ty::Tuple(ts) => format!("({})", ts.iter().map(|x| self.default_of(x)).collect::<Option<Vec<_>>>()?.join(", ")),
             Ty::Range(x) | Ty::RangeIncl(x) => format!("({d}, {d})", d = self.default_of(x)?),
             Ty::Adt(n) => match self.adts.get(n)? {
@@ -407,7 +411,7 @@ impl Tables {
             Ty::Range(t) | Ty::RangeIncl(t) => format!("({} * {})", self.coq_ty(t)?, self.coq_ty(t)?),
             Ty::Infer => "_".into(),
             Ty::Opaque(w) => return Err(format!("unsupported type: {}", w)),
-            Ty::Slice(t) | Ty::Windows(t) => format!("(list {})", self.coq_ty(t)?),
+            Ty::Slice(t) | Ty::Windows(t) | Ty::Iter(t) => format!("(list {})", self.coq_ty(t)?),
             Ty::Result(t, e) => format!("({} + {})", self.coq_ty(t)?, self.coq_ty(e)?),
             Ty::Fn(a, r) => format!("({} -> {})", a.iter().map(|t| self.coq_ty(t)).collect::<R<Vec<_>>>()?.join(" -> "), self.coq_ty(r)?),
             Ty::Extern(n) => match self.externs.get(n) {
@@ -553,6 +557,7 @@ pub fn subst_ty(t: &Ty, m: &BTreeMap<String, Ty>) -> Ty {
         Ty::Fn(a, r) => Ty::Fn(a.iter().map(|x| subst_ty(x, m)).collect(), Box::new(subst_ty(r, m))),
         Ty::Slice(x) => Ty::Slice(Box::new(subst_ty(x, m))),
         Ty::Windows(x) => Ty::Windows(Box::new(subst_ty(x, m))),
+        Ty::Iter(x) => Ty::Iter(Box::new(subst_ty(x, m))),
         Ty::Result(x, e) => Ty::Result(Box::new(subst_ty(x, m)), Box::new(subst_ty(e, m))),
         _ => t.clone(),
     }
